@@ -18,10 +18,13 @@ use std::collections::BTreeSet;
 use std::hash::{Hash, Hasher};
 use std::panic::{catch_unwind, AssertUnwindSafe};
 
-#[derive(Debug, Clone, Copy, PartialEq, Eq, Serialize, Deserialize)]
+#[derive(Debug, Clone, PartialEq, Eq, Serialize, Deserialize)]
 pub enum TwinKind {
     SaveLoad,
     Clone,
+    /// the twin is a fresh graph onto which the script text is deployed (C14); the
+    /// "history" are the equivalent direct calls
+    Script { text: String, commands: usize },
 }
 
 #[derive(Debug, Clone, PartialEq, Eq, Serialize, Deserialize)]
@@ -63,6 +66,7 @@ impl TwinEngine {
         match self.kind {
             TwinKind::SaveLoad => "C08",
             TwinKind::Clone => "C10",
+            TwinKind::Script { .. } => "C14",
         }
     }
 
@@ -72,7 +76,15 @@ impl TwinEngine {
 
     /// Make the twin of r's graph. Err = violation (panic / Err from save or load).
     fn make_twin(&self, r: &Runner) -> Result<Box<dyn crate::graph::G>, Failure> {
-        let res = catch_unwind(AssertUnwindSafe(|| match self.kind {
+        let res = catch_unwind(AssertUnwindSafe(|| match &self.kind {
+            TwinKind::Script { text, commands } => {
+                let mut g = crate::graph::new_graph(r.cfg.n, r.cfg.cap);
+                match g.deploy(text) {
+                    Ok(n) if n == *commands => Ok(g),
+                    Ok(n) => Err(format!("deploy_to() returned {n} but the script has {commands} commands")),
+                    Err(e) => Err(format!("deploy_to() of a well-formed script failed: {e:#}")),
+                }
+            }
             TwinKind::Clone => Ok(r.g.clone_box()),
             TwinKind::SaveLoad => {
                 let p = tmp_file("twin");
@@ -83,12 +95,33 @@ impl TwinEngine {
         }));
         match res {
             Err(e) => Err(self.fail("twin.panic", 0, format!("making the twin panicked: {}", panic_text(e)))),
-            Ok(Err(e)) => Err(self.fail("twin.error", 0, format!("save/load of a reachable graph failed: {e}"))),
+            Ok(Err(e)) => Err(self.fail("twin.error", 0, format!("making the twin failed: {e}"))),
             Ok(Ok(g)) => Ok(g),
         }
     }
 
     /// Execute the concrete case. `cont_src` yields continuation calls against the model.
+    pub fn execute_public(
+        &self,
+        cfg: Cfg,
+        history: &[Call],
+        order_sel: u16,
+        cont: &[Call],
+    ) -> (Option<Failure>, Option<&'static str>, u64) {
+        let mut i = 0usize;
+        let mut src = |_: &Runner| {
+            if i < cont.len() {
+                i += 1;
+                Some(Some(cont[i - 1].clone()))
+            } else {
+                None
+            }
+        };
+        let mut st = TwinStats::default();
+        let f = self.execute(cfg, history, 0, order_sel, &mut src, &mut st, &mut vec![]);
+        (f, st.closed, st.groups_died_cont)
+    }
+
     fn execute(
         &self,
         cfg: Cfg,
@@ -153,7 +186,7 @@ impl TwinEngine {
         }
         // (iii) complete-state comparison as a trigger only
         let (s1, s2) = (r1.g.snapshot(), r2.g.snapshot());
-        st.snapshot_differs = normalise(&s1, self.kind) != normalise(&s2, self.kind);
+        st.snapshot_differs = normalise(&s1, &self.kind) != normalise(&s2, &self.kind);
         if st.snapshot_differs {
             st.events.insert("twin.snapshot_differs(trigger)");
         }
@@ -334,9 +367,9 @@ pub fn run_concrete_keep(cfg: Cfg, calls: &[Call], _o: &mut NullOracle) -> Optio
 
 /// Snapshot with the parts that are allowed to differ removed: content of absent slots,
 /// and (save+load) the allocator position.
-fn normalise(s: &sodg::VerifSnapshot, kind: TwinKind) -> sodg::VerifSnapshot {
+fn normalise(s: &sodg::VerifSnapshot, kind: &TwinKind) -> sodg::VerifSnapshot {
     let mut n = s.clone();
-    if kind == TwinKind::SaveLoad {
+    if *kind == TwinKind::SaveLoad {
         n.next_v = 0;
     }
     for slot in &mut n.slots {
@@ -393,7 +426,7 @@ impl Engine for TwinEngine {
             return CaseReport { events: vec!["history_closed"], evaluations: 1, ..Default::default() };
         }
         let mode = match self.kind {
-            TwinKind::SaveLoad => 0,
+            TwinKind::SaveLoad | TwinKind::Script { .. } => 0,
             TwinKind::Clone => match case.variant % 4 {
                 0 | 1 => 0,
                 2 => 1,
